@@ -98,9 +98,16 @@ func (fc *FnCtx) Generate() (err error) {
 	}
 	env0 := fc.entryEnv()
 	// global invariants (tables) are assumed at entry of every function except the initialiser that establishes them
-	if !fc.isInit {
+	{
 		for _, g := range fc.w.cs.Globals {
-			ge := &Env{w: fc.w, pkg: fc.w.typePkgs["url"], vars: map[string]EV{}, st: fc.entry, facts: &fc.facts}
+			if fc.isInit && (g.pkgName() == fc.pkg.Name() || g.pkgName() == "canonicalizer") {
+				continue // established by this initialiser (or by one that runs later)
+			}
+			gp := fc.w.typePkgs[g.pkgName()]
+			if gp == nil {
+				gp = fc.w.typePkgs["url"]
+			}
+			ge := &Env{w: fc.w, pkg: gp, vars: map[string]EV{}, st: fc.entry, facts: &fc.facts}
 			t, err := ge.EvalBool(g.Expr)
 			if err != nil {
 				return fmt.Errorf("global invariant %s: %v", g.Name, err)
@@ -954,7 +961,7 @@ func (fc *FnCtx) doReturn(r *ssa.Return) {
 	}
 	if fc.isInit {
 		for _, g := range fc.w.cs.Globals {
-			ge := &Env{w: fc.w, pkg: fc.pkg, vars: map[string]EV{}, st: fc.st}
+			ge := &Env{w: fc.w, pkg: fc.pkg, vars: map[string]EV{}, st: fc.st, facts: &fc.facts}
 			if g.pkgName() != "" && g.pkgName() != fc.pkg.Name() {
 				continue
 			}
